@@ -286,4 +286,44 @@ PROPS = {
             {"run": rules_path.run_uaf, "floor": 1, "use_anchor_files": True},
         ],
     },
+    "C08": {
+        "explanation": "PROGRESS over every loop of the parser stages (each cycle consumes input through one of the character readers or changes what its exit reads). GETCWHO: the "
+                       "input callback is invoked by exactly the three character readers and no stage replaces the caller's input source, i.e. each character is obtained once and "
+                       "there is no push-back path. ERRFX on mpt_parse_node: no store to the target root on a path that returns an error (the temporary tree is merged only after "
+                       "err >= 0). CTYPEARG: every <ctype.h> table index lies in [-128,255] (interprocedural return summaries of the readers). NARROW on path.first. "
+                       "UAF/NULLCONTRA/OBJSIZE/BOUNDSTALE on the anchor files.",
+        "not_decided": "absence of every invalid access for hostile input; well-nestedness of the emitted event sequence; leak freedom on all error paths",
+        "assumptions": ["parser_input.getc callbacks follow the fgetc() contract: result <= 255 (negative or 0 ends the input)"],
+        "technique": "syntactic loop variants + who-may-call check on the input callback + trace-partitioned effect-before-refusal analysis + interval analysis with call summaries",
+        "level_text": "Termination after reading each character once, and 'a failed parse leaves the target tree as it was', for every input and format (structural proofs over all paths).",
+        "level_note": "callee effects on the tree (mpt_node_move/clear inside the merge) belong to the success path",
+        "rules": [
+            {"run": rules_path.run_progress, "floor": 8, "use_anchor_files": True},
+            {"run": rules_path.run_getcwho, "floor": 3},
+            {"run": rules_effect.run_named, "floor": 1, "ctx": {"functions": [["mpt_parse_node", 0]]}},
+            {"run": rules_path.run_ctypearg, "floor": 6, "use_anchor_files": True},
+            {"run": rules_ident.run_narrow, "floor": 1, "use_anchor_files": True, "ctx": {"records": ["mpt_path", "path"]}},
+            {"run": rules_path.run_nullcontra, "floor": 20, "use_anchor_files": True},
+            {"run": rules_path.run_uaf, "floor": 1, "use_anchor_files": True},
+            {"run": rules_path.run_objsize, "floor": 2, "use_anchor_files": True},
+        ],
+    },
+    "C09": {
+        "explanation": "NARROW: the 16 bit parser_context.valid length receives mpt_path_valid() (int): stores whose interval leaves [0,65535] truncate long values "
+                       "(10 sites, listed as known findings: widening the public struct is not a small repair). OBJSIZE/STATUSPOLARITY: the long-value branch of mpt_meta_new copies "
+                       "len bytes from the text (no dead copy, no over-read of the terminator literal, status tested with < 0). CONVDEST on the string conversions; NULLCONTRA, UAF.",
+        "not_decided": "tree equality (nesting, order, names, quoting, whitespace invariance): input/output relations of the tokenizer",
+        "assumptions": [],
+        "technique": "interval analysis of narrow stores and copy lengths; status-polarity and table rules shared with C04/C07",
+        "level_text": "Decides only the 'values of any length' clause through its two structural necessary conditions; the rest of the property is not decided statically.",
+        "level_note": "",
+        "rules": [
+            {"run": rules_ident.run_narrow, "floor": 5, "use_anchor_files": True, "ctx": {"records": ["mpt_parser_context", "parser_context"]}},
+            {"run": rules_path.run_objsize, "floor": 2, "use_anchor_files": True},
+            {"run": rules_path.run_statuspolarity, "floor": 2, "use_anchor_files": True},
+            {"run": rules_layout.run_convdest, "floor": 60, "scope": "anchors"},
+            {"run": rules_path.run_nullcontra, "floor": 10, "use_anchor_files": True},
+            {"run": rules_path.run_uaf, "floor": 1, "use_anchor_files": True},
+        ],
+    },
 }
